@@ -273,9 +273,11 @@ pub fn gen_impl_trait_serde_serialize(type_name: &TypeName, generics: &Generics)
     let type_name_str = type_name.to_string();
     quote! {
         impl #all_generics_with_serialize_bound ::serde::Serialize for #type_name #generics_without_bounds {
-            fn serialize<S>(&self, serializer: S) -> ::core::result::Result<S::Ok, S::Error>
+            // NOTE: the generic parameter has an unusual name, so it does not clash with the name
+            // of the newtype or with its own generic parameters.
+            fn serialize<__S>(&self, serializer: __S) -> ::core::result::Result<__S::Ok, __S::Error>
             where
-                S: ::serde::Serializer
+                __S: ::serde::Serializer
             {
                 ::serde::ser::Serializer::serialize_newtype_struct(serializer, #type_name_str, &self.0)
             }
@@ -295,7 +297,7 @@ pub fn gen_impl_trait_serde_deserialize(
         quote! {
             #type_name::try_new(raw_value).map_err(|validation_error| {
                 // Add a hint about which type is causing the error,
-                <DE::Error as serde::de::Error>::custom(core::format_args!("{validation_error} Expected valid {}", #type_name_str))
+                <__DE::Error as ::serde::de::Error>::custom(::core::format_args!("{validation_error} Expected valid {}", #type_name_str))
             })
         }
     } else {
@@ -322,7 +324,9 @@ pub fn gen_impl_trait_serde_deserialize(
 
     quote! {
         impl #all_generics_with_deserialize_bound ::serde::Deserialize<'de> for #type_name #type_generics_without_bounds {
-            fn deserialize<D: ::serde::Deserializer<'de>>(deserializer: D) -> ::core::result::Result<Self, D::Error> {
+            // NOTE: the generic parameters `__D` and `__DE` have unusual names, so they do not clash
+            // with the name of the newtype or with its own generic parameters.
+            fn deserialize<__D: ::serde::Deserializer<'de>>(deserializer: __D) -> ::core::result::Result<Self, __D::Error> {
                 struct __Visitor #all_generics {
                     marker: ::core::marker::PhantomData<#type_name #type_generics_without_bounds>,
                     lifetime: ::core::marker::PhantomData<&'de ()>,
@@ -335,9 +339,9 @@ pub fn gen_impl_trait_serde_deserialize(
                         write!(formatter, #expecting_str)
                     }
 
-                    fn visit_newtype_struct<DE>(self, deserializer: DE) -> ::core::result::Result<Self::Value, DE::Error>
+                    fn visit_newtype_struct<__DE>(self, deserializer: __DE) -> ::core::result::Result<Self::Value, __DE::Error>
                     where
-                        DE: ::serde::Deserializer<'de>
+                        __DE: ::serde::Deserializer<'de>
                     {
                         let raw_value: #inner_type = match <#inner_type as ::serde::Deserialize>::deserialize(deserializer) {
                             Ok(val) => val,
